@@ -117,6 +117,13 @@ def run(ctx):
             got = ['EXC', type(e).__name__]
         after = current_override(timeutils)
         n += 1
+        if op == 'utcnow_ts_micro' and got != want and f != NONE and abs(f[0]) > 100000:
+            # a float timestamp centuries from the epoch cannot carry microseconds: accept within one ulp
+            import math
+            exact = Fraction(calendar.timegm(BASE.timetuple()) + f[0] * 86400 + f[1]) + Fraction(f[2], 1000000)
+            v = timeutils.utcnow_ts(microsecond=True)
+            if isinstance(v, float) and abs(Fraction(v) - exact) <= Fraction(math.ulp(v)):
+                got = want
         if got != want or after != t:
             ctx.violation({'kind': 'clock', 'op': op, 'result_ok': got == want},
                           {'from': f, 'op': op, 'arg': arg, 'expected_result': want, 'observed_result': got,
@@ -153,7 +160,10 @@ def run(ctx):
         timeutils.set_time_override(now)
         checks = [('is_older_than', lambda: timeutils.is_older_than(t, secs), rec['older']),
                   ('is_newer_than', lambda: timeutils.is_newer_than(t, secs), rec['newer'])]
-        if form != 'iso':
+        edge = c['now'][0] > 1000000 or c['now'][0] < -700000
+        if edge:
+            pass          # is_soon / normalize_time would need now + w, outside the representable range
+        elif form != 'iso':
             checks.append(('is_soon', lambda: timeutils.is_soon(t, secs), rec['soon']))
             checks.append(('normalize_time', lambda: timeutils.normalize_time(t) == tutc and
                            timeutils.normalize_time(t).tzinfo is None, True))
@@ -223,8 +233,31 @@ def run(ctx):
                 if timeutils.is_older_than(a, 9) is not True or timeutils.is_older_than(a, 10) is not False:
                     problems.append('is_older_than in the repeated hour of %s, fold=%d' % (zn, fold))
                 timeutils.clear_time_override()
+        if j < 40:
+            # the ends of the range, and a process whose local zone is not UTC
+            import time as _t
+            for zone in ('UTC', 'America/New_York', 'Asia/Kolkata'):
+                saved_tz = os.environ.get('TZ')
+                os.environ['TZ'] = zone
+                _t.tzset()
+                try:
+                    for ext in (datetime.datetime.min, datetime.datetime.max, dt):
+                        for aware in (False, True):
+                            x = ext.replace(tzinfo=datetime.timezone.utc) if aware else ext
+                            try:
+                                y = timeutils.unmarshall_time(timeutils.marshall_now(x))
+                            except Exception as e:
+                                y = 'EXC:' + type(e).__name__
+                            if y != x or (aware and getattr(y, 'utcoffset', lambda: None)() != datetime.timedelta(0)):
+                                problems.append('round trip of %s (aware=%s) with local zone %s -> %s' % (ext, aware, zone, y))
+                finally:
+                    if saved_tz is None:
+                        os.environ.pop('TZ', None)
+                    else:
+                        os.environ['TZ'] = saved_tz
+                    _t.tzset()
         for p in problems:
-            ctx.violation({'kind': 'marshall/zone', 'what': p}, {'datetime': str(dt), 'zone': str(z)},
+            ctx.violation({'kind': 'marshall/zone', 'what': p.split(' of ')[0]}, {'datetime': str(dt), 'zone': str(z)},
                           '%s fails for %s (%s)' % (p, dt, z))
     ctx.cov['evaluations'] += k
     ctx.stage('marshalling-and-zones', cases=k)
